@@ -10,7 +10,7 @@
 (* page  == [ n, defRuns, repRuns (Hybrid run lists), enc (0 PLAIN | 2 | 8),                *)
 (*            vals : Seq(bytes) (dense, PLAIN) or idxRuns + bw (dictionary indices),        *)
 (*            crc : "none" | "good" | "bad", stats, v2 : BOOLEAN ]                          *)
-EXTENDS Naturals, Sequences, SequencesExt, FiniteSets, Bytes, W, Varint, BitPack, Hybrid, ThriftCompact, Crc32
+EXTENDS Naturals, Sequences, SequencesExt, FiniteSets, Bytes, W, Varint, BitPack, Hybrid, ThriftCompact, Crc32, PageCodec
 
 WMAGIC == <<80, 65, 82, 49>>
 NoStatsW == [has |-> FALSE]
@@ -48,7 +48,7 @@ RunStyle(s, style, maxv) ==
                            \o Flatten([i \in 1..Len(MaxRuns(s)) |-> <<MaxRuns(s)[i], [k |-> "bp", vals |-> <<>>]>>])
 
 \* ---- compression hook (reference encoders per codec are plugged in by PageCodecW)
-CompressW(codec, body) == body        \* codec 0; other codecs: see PageCodecFull
+CompressW(codec, body) == CompressRef(codec, body)
 
 \* ---- statistics struct
 StatsTree(st) ==
@@ -72,12 +72,12 @@ PageBody(ch, pg) ==
     (IF ch.maxRep > 0 THEN SerPrefixed(pg.repRuns, WidthOf(ch.maxRep)) ELSE <<>>)
     \o (IF ch.maxDef > 0 THEN SerPrefixed(pg.defRuns, WidthOf(ch.maxDef)) ELSE <<>>)
     \o (IF pg.enc = 0 THEN PlainEncode(ch.type, pg.vals)
-        ELSE IF pg.nn = 0 THEN <<>> ELSE <<pg.bw>> \o Ser(pg.idxRuns, pg.bw))
+        ELSE <<pg.bw>> \o Ser(pg.idxRuns, pg.bw))      \* the width byte is written even for an all-null page
 
 DataPage(ch, pg, extras, sty) ==
     LET body == PageBody(ch, pg)
         stored == CompressW(ch.codec, body)
-        dh == Struct(<<F(1, I(pg.n)), F(2, I(pg.enc)), F(3, I(3)), F(4, I(3))>>
+        dh == Struct(<<F(1, I(pg.n)), F(2, I(pg.encTag)), F(3, I(3)), F(4, I(3))>>
                      \o (IF pg.stats.has THEN <<F(5, StatsTree(pg.stats))>> ELSE <<>>)
                      \o (IF extras THEN ExtraFields(40) ELSE <<>>))
         ph == Struct(<<F(1, I(0)), F(2, I(Len(body))), F(3, I(Len(stored)))>>
@@ -86,6 +86,18 @@ DataPage(ch, pg, extras, sty) ==
                      \o (IF extras THEN ExtraFields(60) ELSE <<>>))
         hb == TSer(ph, sty)
     IN [bytes |-> hb \o stored, hdrLen |-> Len(hb), ulen |-> Len(body), clen |-> Len(stored)]
+
+\* data page v2: levels without length prefix, never compressed; values section after them
+DataPageV2(ch, pg, sty) ==
+    LET rl == IF ch.maxRep > 0 THEN Ser(pg.repRuns, WidthOf(ch.maxRep)) ELSE <<>>
+        dl == IF ch.maxDef > 0 THEN Ser(pg.defRuns, WidthOf(ch.maxDef)) ELSE <<>>
+        vals == IF pg.enc = 0 THEN PlainEncode(ch.type, pg.vals) ELSE <<pg.bw>> \o Ser(pg.idxRuns, pg.bw)
+        body == rl \o dl \o vals
+        h2 == Struct(<<F(1, I(pg.n)), F(2, I(pg.n - pg.nn)), F(3, I(pg.nrows)), F(4, I(pg.enc)),
+                       F(5, I(Len(dl))), F(6, I(Len(rl))), F(7, Bool(FALSE))>>)
+        ph == Struct(<<F(1, I(3)), F(2, I(Len(body))), F(3, I(Len(body))), F(8, h2)>>)
+        hb == TSer(ph, sty)
+    IN [bytes |-> hb \o body, hdrLen |-> Len(hb), ulen |-> Len(body), clen |-> Len(body)]
 
 DictPage(ch, sty) ==
     LET body == PlainEncode(ch.type, ch.dict)
@@ -99,7 +111,7 @@ DictPage(ch, sty) ==
 ChunkW(ch, off, extras, sty) ==
     LET hasDict == Len(ch.dict) > 0
         dp == IF hasDict THEN <<DictPage(ch, sty)>> ELSE <<>>
-        pgs == dp \o [i \in 1..Len(ch.pages) |-> DataPage(ch, ch.pages[i], extras, sty)]
+        pgs == dp \o [i \in 1..Len(ch.pages) |-> IF ch.pages[i].v2 THEN DataPageV2(ch, ch.pages[i], sty) ELSE DataPage(ch, ch.pages[i], extras, sty)]
         bytes == Flatten([i \in 1..Len(pgs) |-> pgs[i].bytes])
         tco == Len(bytes)
         tun == FoldLeft(LAMBDA acc, p : acc + p.hdrLen + p.ulen, 0, pgs)
@@ -110,7 +122,7 @@ ChunkW(ch, off, extras, sty) ==
         encs == {ch.pages[i].enc : i \in 1..Len(ch.pages)} \cup {3} \cup (IF hasDict THEN {ch.dictEnc} ELSE {})
         md == Struct(<<F(1, I(ch.type)), F(2, List("i32", [i \in 1..Cardinality(encs) |-> I(SetToSortSeq(encs, <)[i])])),
                        F(3, List("binary", [i \in 1..Len(ch.path) |-> Bin(ch.path[i])])),
-                       F(4, I(ch.codec)), F(5, L(nvals)), F(6, L(tun)), F(7, L(tco)), F(9, L(dataOff))>>
+                       F(4, I(ch.codecTag)), F(5, L(nvals)), F(6, L(tun)), F(7, L(tco)), F(9, L(dataOff))>>
                      \o (IF hasDict /\ ch.dictOffsetField THEN <<F(11, L(off))>> ELSE <<>>)
                      \o (IF ch.stats.has THEN <<F(12, StatsTree(ch.stats))>> ELSE <<>>)
                      \o (IF extras THEN ExtraFields(30) ELSE <<>>))
